@@ -20,12 +20,17 @@ def pick(pairs, tier, seed):
 def run(tier, seed):
     cfg = open(tlc.SPECS / "MC_Startup_C05.cfg").read()
     cfgs = [("C05 family, 3 components", cfg)]
-    return startup.family_check(PROP, tier, seed, cfgs, "Trace_C05", {"prepare", "start-after-descendants", "returned", "q", "visible", "torn-down"}, pick,
+    live = tlc.run("MC_Startup", "MC_Startup_live", workers=8, heap="8g", timeout=1800, check=False)
+    if live.error or live.property_violated:
+        raise core.MachineryError(f"Startup.tla liveness: {live.error or 'Finishes violated'}")
+    rep = startup.family_check(PROP, tier, seed, cfgs, "Trace_C05", {"prepare", "start-after-descendants", "returned", "q", "visible", "torn-down"}, pick,
                                 "all trees of <= 3 components x with/without prepare()/start() x scripts of <= 1 step per phase over {publish A, publish B, wait for A, wait for B} "
                                 "x every order of releasing the gates, enumerated by TLC; quick executes a seeded sample of the completing pairs and of the pairs that must get "
                                 "stuck (cyclic or unsatisfiable waits), thorough all completing pairs; each on asyncio and trio, a third also with bursts; "
                                 "non-trivial = schedules of at least two releases; distinct by (program, schedule)",
                                 ["whether a program can complete (acyclic dependencies) is taken from the specification's own verdict for that program"])
+    rep.add_tlc(live, "MC_Startup_live (2 components, faults and timeout): under weak fairness every start_component call finishes or is stuck for a reason the specification names, and the context is left")
+    return rep
 
 
 def replay(scenario):
